@@ -722,6 +722,10 @@ func floating(computer *ComputedStyle, _ pr.KnownProp, _value pr.CssProperty) pr
 	if position.String == "absolute" || position.String == "fixed" || position.Bool /* running*/ {
 		return pr.String("none")
 	}
+	if value == "footnote" && computer.parentStyle == nil {
+		// the root element can not be moved to the footnote area of its own page
+		return pr.String("none")
+	}
 	return value
 }
 
